@@ -17,7 +17,8 @@ Inductive ostyle :=
 
 Inductive tsty :=
 | TPrim (name : str)                       (* number bigint boolean string null never *)
-| TVar (name : str)                        (* a type parameter *)
+| TVar (name : str)                        (* a type parameter (its name()) *)
+| TVarF (name : str)                       (* a type parameter in flattened position (its inline_flattened()) *)
 | TRef (name : str) (args : list tsty)     (* Name or Name<A, B> *)
 | TArray (t : tsty)                        (* Array<T> *)
 | TNeverArr                                (* never[] *)
@@ -49,6 +50,7 @@ Fixpoint print (t : tsty) : str :=
   match t with
   | TPrim n => n
   | TVar n => n
+  | TVarF n => n
   | TRef n [] => n
   | TRef n args => n ++ lit "<" ++ join (lit ", ") (map print args) ++ lit ">"
   | TArray t => lit "Array<" ++ print t ++ lit ">"
